@@ -9,12 +9,12 @@ func init() {
 	register(&Profile{
 		Name:     "C07",
 		Property: "C07",
-		Gen:      genC07,
+		Gen:      func(g *Gen) *Plan { return swarm(g, genC07(g), 0.25, 0.0) },
 		Oracles:  []func(o *Outcome) []Violation{oracleC07, oracleC01as("C07"), livenessOracle("C07")},
 		NonTrivial: func(o *Outcome) bool {
 			return o.Hist.Probes["request-surely-inside-period"] > 0
 		},
-		Rule:         "seeded plans on one key: hit-for-pass in {unset, 0s, -1s, 1s, 2s, 5s, 300s}; origin answers alternate cacheable / uncacheable / failing; bursts of 1-6 concurrent requests before, during (replies withheld until every other action is exhausted: a request that can only proceed after another's reply is queueing) and after the period; default period bracketed at +299s / +302s. non-trivial = at least one request lay surely inside a hit-for-pass period; distinct = distinct history hash",
+		Rule:         "seeded plans on one key: hit-for-pass in {unset, 0s, -1s, 1s, 2s, 5s, 300s}; origin answers alternate cacheable / uncacheable / failing; bursts of 1-6 concurrent requests before, during (replies withheld until every other action is exhausted: a request that can only proceed after another's reply is queueing) and after the period; default period bracketed at +299s / +302s. in a quarter of the plans a tenth of the clients disconnect at a scheduler-chosen step (fault client-disconnect). non-trivial = at least one request lay surely inside a hit-for-pass period; distinct = distinct history hash",
 		ExpectProbes: []string{"request-surely-inside-period", "burst-inside-period-withheld", "request-after-period", "default-period-299s", "default-period-302s", "probe-after-period-cacheable", "waiter-released-by-uncacheable-fetch"},
 	})
 }
@@ -216,6 +216,13 @@ func oracleC07(o *Outcome) []Violation {
 						if u1.Req < 0 || byReq[o.Hist.Reqs[u1.Req]] == nil || byReq[o.Hist.Reqs[u1.Req]].XStatus != "hitForPass" {
 							later = true
 						}
+					}
+				}
+				for _, r1 := range o.Hist.Reqs {
+					// ... or took the fetching role and ended it without reaching the origin (client
+					// gone, no healthy upstream): that leaves a fresh marker as well
+					if r1 != c && r1.Key == c.Key && len(r1.Ups) == 0 && r1.InvokeSeq > c0.ReturnSeq && r1.InvokeSeq < c.ReturnSeq && endedFetchWithoutOrigin(r1) {
+						later = true
 					}
 				}
 				if !later && v.XStatus == "hitForPass" {
